@@ -123,6 +123,7 @@ type replayer struct {
 	nontrivial int64
 	samples []json.RawMessage
 	tallies map[string]int
+	allVariants bool
 	accepted map[string]bool // acc records: the token-class sequences the model accepts
 	tokCfg   *Rec
 }
@@ -451,10 +452,12 @@ func cmdReplay(args []string) int {
 	seed := fs.Int64("seed", 1, "seed for OTHER-byte substitution")
 	workers := fs.Int("workers", 16, "")
 	reps := fs.Int("reps", 1, "substitution rounds for records containing OTHER")
+	allVar := fs.Bool("allvariants", false, "token space: all four renderings per sequence (thorough)")
 	_ = fs.Parse(args)
 
 	t := loadTables()
 	r := &replayer{prop: *prop, anchor: t.Active[0], byKind: map[string]int64{}, tallies: map[string]int{}, accepted: map[string]bool{}}
+	r.allVariants = *allVar
 	for _, id := range t.Active {
 		if id == "MIT" {
 			r.anchor = id
